@@ -182,9 +182,17 @@ impl Path {
                 let cross = dx * (self.y - y1) - dy * (self.x - x1);
 
                 if cross == 0. {
-                    self.on_edge = true;
-                } else if (cross > 0. && dir > 0) || (cross < 0. && dir < 0) {
-                    self.count += dir;
+                    // we're on the line through the edge. The tests above leave the collinear
+                    // points of the edge itself and those beyond its left end
+                    if !(x1 < self.x && x2 < self.x) {
+                        self.on_edge = true;
+                    }
+                } else if (y1 <= self.y) != (y2 <= self.y) {
+                    // the edge spans our y. Its lower end point belongs to it but not its upper one so
+                    // that a vertex level with the point is counted once and horizontal edges never
+                    if (cross > 0. && dir > 0) || (cross < 0. && dir < 0) {
+                        self.count += dir;
+                    }
                 }
             }
         }
